@@ -383,20 +383,34 @@ impl IsoDate {
         // 1. Assert: year, month, day, years, months, weeks, and days are integers.
         // 2. Assert: overflow is either "constrain" or "reject".
         // 3. Let intermediate be ! BalanceISOYearMonth(year + years, month + months).
-        let intermediate = balance_iso_year_month(
-            self.year + duration.years.as_date_value()?,
-            i32::from(self.month) + duration.months.as_date_value()?,
-        );
+        // NOTE: The sums are computed with 64 bits. A duration's fields share one sign,
+        // so an intermediate year outside of the supported range can never be brought back
+        // into range by the remaining fields.
+        let out_of_range =
+            || TemporalError::range().with_message("Date is not within ISO date time limits.");
+        let total_months =
+            i64::from(self.month) - 1 + i64::from(duration.months.as_date_value()?);
+        let year = i64::from(self.year)
+            + i64::from(duration.years.as_date_value()?)
+            + total_months.div_euclid(12);
+        if !(-271_821..=275_760).contains(&year) {
+            return Err(out_of_range());
+        }
+        let intermediate = (year as i32, (total_months.rem_euclid(12) + 1) as u8);
 
         // 4. Let intermediate be ? RegulateISODate(intermediate.[[Year]], intermediate.[[Month]], day, overflow).
         let intermediate =
             Self::new_with_overflow(intermediate.0, intermediate.1, self.day, overflow)?;
 
         // 5. Set days to days + 7 × weeks.
-        let additional_days =
-            duration.days.as_date_value()? + (duration.weeks.as_date_value()? * 7);
+        let additional_days = i64::from(duration.days.as_date_value()?)
+            + i64::from(duration.weeks.as_date_value()?) * 7;
+        // The supported range spans about 2 * 10^8 days.
+        if additional_days.abs() > 2 * i64::from(MAX_EPOCH_DAYS) {
+            return Err(out_of_range());
+        }
         // 6. Let d be intermediate.[[Day]] + days.
-        let intermediate_days = i32::from(intermediate.day) + additional_days;
+        let intermediate_days = i32::from(intermediate.day) + additional_days as i32;
 
         // 7. Return BalanceISODate(intermediate.[[Year]], intermediate.[[Month]], d).
         Ok(Self::balance(
